@@ -134,7 +134,7 @@ func specialStreams(c *Config) {
 			}
 		}
 	}
-	for i := c.Count(700, 14000); i > 0; i-- {
+	for i := c.Count(700, 10000); i > 0; i-- {
 		var its []itemSpec
 		switch r.Intn(4) {
 		case 0:
@@ -339,7 +339,7 @@ func selections(c *Config, fam string) ([]commitSpec, []map[int]bool) {
 
 func reuseStreams(c *Config) {
 	r := c.Rng
-	for i := c.Count(900, 20000); i > 0; i-- {
+	for i := c.Count(900, 12000); i > 0; i-- {
 		fam := []string{"sides", "sides", "mid", "mid", "sub", "grow"}[r.Intn(6)]
 		cs, sets := selections(c, fam)
 		var its []itemSpec
